@@ -176,11 +176,22 @@ func cmdCheck(prop, tier string) int {
 			continue
 		}
 		cnt := 0
-		for _, o := range os_ {
+		// a postcondition is proved with the earlier postconditions of the same return as hypotheses: whenever one is
+		// selected by the filters, the earlier ones are selected too (otherwise a broken earlier clause would be assumed)
+		needUpTo := map[string]int{}
+		selected := func(o *Obligation) bool {
 			if !isCallee && len(only) > 0 && !matchAny(only, o.Name) && o.Kind != "vacuity" {
-				continue
+				return false
 			}
-			if matchAny(exclude, o.Name) {
+			return !matchAny(exclude, o.Name)
+		}
+		for _, o := range os_ {
+			if o.Kind == "ensures" && o.EnsIdx > 0 && selected(o) && o.EnsIdx > needUpTo[o.RetTag] {
+				needUpTo[o.RetTag] = o.EnsIdx
+			}
+		}
+		for _, o := range os_ {
+			if !selected(o) && !(o.Kind == "ensures" && o.EnsIdx > 0 && o.EnsIdx < needUpTo[o.RetTag]) {
 				continue
 			}
 			obls = append(obls, o)
